@@ -54,6 +54,9 @@ class Result(object):
         self.out_stores = 0
         self.in_loads = 0
         self.compared = 0        # load/store pairs with the same symbolic part
+        self.load_parts = set()  # symbolic parts of input-load addresses (any order)
+        self.store_parts = set() # symbolic parts of output-store addresses
+
         self.iters = 0
 
 
@@ -248,6 +251,7 @@ def analyse(f, in_reg, out_reg, p1):
                     a = _equate(a, insym, outsym)
                     if i.reads_mem_operand() and in_reg in fr and out_reg not in fr:
                         res.in_loads += 1
+                        res.load_parts.add(a[1])
                         for (pf, psz, pins) in pend:
                             if pf[1] != a[1]:
                                 continue
@@ -258,6 +262,7 @@ def analyse(f, in_reg, out_reg, p1):
                                 res.hazards.append((i, pins, "bytes %+d..%+d of the load" % (lo - a[0], hi - 1 - a[0])))
                     if i.writes_mem_operand() and out_reg in fr and in_reg not in fr:
                         res.out_stores += 1
+                        res.store_parts.add(a[1])
                         pend.add((a, size, i))
             # an instruction that executes again re-binds its opaque result: drop stale entries
             pend = set(p for p in pend if not _mentions(p[0], lambda s, _a=i.addr: s[0] == "op" and s[1] == _a))
@@ -272,4 +277,5 @@ def analyse(f, in_reg, out_reg, p1):
                 pend_in[s] = old | out
                 if s not in work:
                     work.append(s)
+    res.matchable = len(res.load_parts & res.store_parts)   # address shapes the analysis can relate at all (order-insensitive)
     return res
